@@ -5,6 +5,9 @@
 //! A case starts with a constructor line
 //!     sync  <base> <max> <rscript> <wscript>      SyncStream::with_limits(base, max, inner)
 //!     async <base> <max> <rscript> <wscript>      AsyncStream::with_limits(base, max, (innerR, innerW))
+//! optional 6th word `wake=take|ref|clone|keep`: how the inner stream wakes the waker it registered (by value as
+//! the only handle / by reference / a clone while the registration is alive / a clone with the registration kept
+//! in a waiter list) — every style must wake every task of the registered `WakerArray` snapshot.
 //! rscript: `,`-separated  d<hex> (data offered) | p (Pending) | e (io error) | z (returns 0); `.` = empty;
 //!          an exhausted script returns 0 (end of stream).
 //! wscript: `,`-separated  w<k> (accept at most k bytes) | p | e; `.` = empty; an exhausted script
@@ -54,8 +57,42 @@ enum WItem {
     E,
 }
 
+/// how the inner stream wakes the waker it registered when its operation completes
+#[derive(Clone, Copy, Default, PartialEq, Debug)]
+enum WakeStyle {
+    /// `registered.take().wake()` — the only handle, woken by value
+    #[default]
+    Take,
+    /// `registered.wake_by_ref()`, then dropped
+    Ref,
+    /// `registered.clone().wake()` while the registration is still alive, dropped afterwards
+    Clone,
+    /// a waiter list: the registration stays in the list (alive for the rest of the case), a clone is woken by value
+    Keep,
+}
+
+fn fire(style: WakeStyle, w: Waker, keep: &mut Vec<Waker>) {
+    match style {
+        WakeStyle::Take => w.wake(),
+        WakeStyle::Ref => w.wake_by_ref(),
+        WakeStyle::Clone => {
+            let c = w.clone();
+            c.wake();
+            drop(w);
+        }
+        WakeStyle::Keep => {
+            let c = w.clone();
+            keep.push(w);
+            c.wake();
+        }
+    }
+}
+
 #[derive(Default)]
 struct Sh {
+    style: WakeStyle,
+    /// registrations a `Keep`-style inner stream never removed
+    keep: Vec<Waker>,
     rscript: VecDeque<RItem>,
     wscript: VecDeque<WItem>,
     /// inner calls of the current operation
@@ -98,9 +135,12 @@ fn poll_r<B: IoBufMut>(sh: &Shared, cx: &mut Context<'_>, buf: &mut B) -> Poll<i
     }
     if let Some(w) = s.rparked.take() {
         s.revent = true;
+        let style = s.style;
+        let mut keep = std::mem::take(&mut s.keep);
         drop(s);
-        w.wake();
+        fire(style, w, &mut keep);
         s = sh.borrow_mut();
+        s.keep = keep;
     }
     let space = buf.as_uninit().len();
     match item {
@@ -143,9 +183,12 @@ fn poll_w(sh: &Shared, cx: &mut Context<'_>, kind: u8, data: &[u8]) -> Poll<io::
     }
     if let Some(w) = s.wparked.take() {
         s.wevent = true;
+        let style = s.style;
+        let mut keep = std::mem::take(&mut s.keep);
         drop(s);
-        w.wake();
+        fire(style, w, &mut keep);
         s = sh.borrow_mut();
+        s.keep = keep;
     }
     match item {
         Some(WItem::E) => {
@@ -401,6 +444,14 @@ impl World {
                     let mut s = self.sh.borrow_mut();
                     s.rscript = parse_rscript(w[3]);
                     s.wscript = parse_wscript(w[4]);
+                    s.style = match w.get(5).copied() {
+                        None | Some("wake=take") => WakeStyle::Take,
+                        Some("wake=ref") => WakeStyle::Ref,
+                        Some("wake=clone") => WakeStyle::Clone,
+                        Some("wake=keep") => WakeStyle::Keep,
+                        Some(o) => panic!("wake style {o}"),
+                    };
+                    ex.tag(format!("wake-style:{:?}", s.style));
                 }
                 ex.tag(format!("cfg:{}:base={base}:max={max}", w[0]));
                 if w[0] == "sync" {
@@ -1036,6 +1087,11 @@ fn gen_wscript(rng: &mut Rng) -> String {
     if items.is_empty() { ".".into() } else { items.join(",") }
 }
 
+/// optional 6th word of the constructor line: how the inner stream wakes its registered waker
+fn gen_style(rng: &mut Rng) -> &'static str {
+    *rng.pick(&["", " wake=take", " wake=ref", " wake=clone", " wake=clone", " wake=keep", " wake=keep"])
+}
+
 fn gen_payload(rng: &mut Rng, next: &mut u8) -> Vec<u8> {
     let k = *rng.pick(&[0usize, 1, 1, 2, 3, 4, 5, 8, 13, 30, 70]);
     (0..k)
@@ -1054,7 +1110,7 @@ fn gen_case(rng: &mut Rng, name: String, long: bool) -> Case {
     let hostile = rng.chance(1, 5);
     let (rs, _) = gen_rscript(rng, hostile);
     let ws = gen_wscript(rng);
-    let mut lines = vec![format!("{} {base} {max} {rs} {ws}", if is_async { "async" } else { "sync" })];
+    let mut lines = vec![format!("{} {base} {max} {rs} {ws}{}", if is_async { "async" } else { "sync" }, gen_style(rng))];
     let nops = if long { rng.range(8, 40) } else { rng.range(3, 16) };
     let mut next = 0u8;
     let sizes = [0usize, 1, 1, 2, 3, 4, 7, 16, 100];
@@ -1099,7 +1155,7 @@ fn gen_wellbehaved(rng: &mut Rng, name: String) -> Case {
     let is_async = rng.chance(1, 2);
     let (rs, total) = gen_rscript(rng, false);
     let ws = gen_wscript(rng);
-    let mut lines = vec![format!("{} {base} {max} {rs} {ws}", if is_async { "async" } else { "sync" })];
+    let mut lines = vec![format!("{} {base} {max} {rs} {ws}{}", if is_async { "async" } else { "sync" }, gen_style(rng))];
     let mut next = 0u8;
     let rounds = total / 2 + 12;
     for i in 0..rounds {
@@ -1156,7 +1212,7 @@ fn gen_writer_stress(rng: &mut Rng, name: String) -> Case {
             _ => "w0".to_string(),
         });
     }
-    let mut lines = vec![format!("{} {base} {max} . {}", if is_async { "async" } else { "sync" }, items.join(","))];
+    let mut lines = vec![format!("{} {base} {max} . {}{}", if is_async { "async" } else { "sync" }, items.join(","), gen_style(rng))];
     let mut next = 0u8;
     for _ in 0..rng.range(6, 24) {
         let t = rng.below(3);
@@ -1206,7 +1262,8 @@ fn generate(tier: &str, rng: &mut Rng) -> Vec<Case> {
                 }
                 lines.push("parts".into());
                 cases.push(Case { name: format!("grid-sync-{base}-{max}-{k}"), lines });
-                let mut lines = vec![format!("async {base} {max} {rs} w2,p,e,p,w100,p")];
+                let style = ["wake=take", "wake=ref", "wake=clone", "wake=keep"][(k + base + max) % 4];
+                let mut lines = vec![format!("async {base} {max} {rs} w2,p,e,p,w100,p {style}")];
                 for r in 0..6 {
                     lines.push(format!("pr {} 3", r % 2));
                     lines.push("pfb 2".into());
